@@ -25,7 +25,7 @@ ASSUMPTIONS = ['joint-level oracle limited to domains of <= 256 cells',
                'Lipschitz part uses projections with >= 2 cells (scipy eigsh refuses 1x1 operators)']
 PLAN = {
     'quick': dict(cases=480, budget_s=60, case_timeout=90, min_cases=100),
-    'thorough': dict(cases=20000, budget_s=1200, case_timeout=180, min_cases=4000),
+    'thorough': dict(cases=20000, budget_s=600, case_timeout=180, min_cases=3333),
 }
 
 
